@@ -4,7 +4,7 @@
 For each /verif/seeded/<name>/patch.diff: fresh scratch worktree of /repo,
 apply, run bin/corscheck for every claimed property (evidence goes to a
 scratch directory), record in meta.json which properties report it, remove
-the worktree.  usage: seeds.py [--only NAME] [--update]
+the worktree.  usage: seeds.py [--only NAME] [--for Cxx] [--update] [-j N]
 """
 import json, os, shutil, subprocess, sys, tempfile
 
@@ -27,6 +27,8 @@ def main():
     m = json.load(open(os.path.join(VERIF, "MANIFEST.json")))
     props = [c["property_id"] for c in m["checks"]]
     missed = 0
+    jobs = int(args[args.index("-j") + 1]) if "-j" in args else 1
+    todo = []
     for name in sorted(os.listdir(os.path.join(VERIF, "seeded"))):
         d = os.path.join(VERIF, "seeded", name)
         if only and name != only or not os.path.exists(os.path.join(d, "patch.diff")):
@@ -34,8 +36,12 @@ def main():
         meta = json.load(open(os.path.join(d, "meta.json")))
         if only_for and meta["property"] != only_for:
             continue
-        if only_for:
-            props = [only_for]
+        todo.append((name, d, meta))
+    if only_for:
+        props = [only_for]
+
+    def one(item):
+        name, d, meta = item
         wt = tempfile.mkdtemp(prefix="seedrun-")
         os.rmdir(wt)
         vd = tempfile.mkdtemp(prefix="seedverif-")
@@ -55,6 +61,12 @@ def main():
         finally:
             shutil.rmtree(wt, ignore_errors=True)
             shutil.rmtree(vd, ignore_errors=True)
+        return name, d, meta, fired, details
+
+    from concurrent.futures import ThreadPoolExecutor
+    with ThreadPoolExecutor(max_workers=jobs) as ex:
+        done = list(ex.map(one, todo))
+    for name, d, meta, fired, details in done:
         hit = meta["property"] in fired
         documented = bool(meta.get("documented_miss"))
         if not hit and not documented:
